@@ -106,6 +106,23 @@ func PrintableBytes(data []byte) bool {
 }
 
 func BytesFromBuffer(r io.Reader, length int) ([]byte, error) {
+	if length < 0 {
+		return nil, fmt.Errorf("[BytesFromBuffer] invalid length (%d)", length)
+	}
+
+	// the length may come from untrusted data (e.g. a TLV length field):
+	// do not allocate more than the source can deliver
+	if lr, ok := r.(interface{ Len() int }); ok && length > lr.Len() {
+		n, _ := io.CopyN(io.Discard, r, int64(lr.Len()))
+
+		var err error = io.ErrUnexpectedEOF
+		if n == 0 {
+			err = io.EOF
+		}
+
+		return nil, fmt.Errorf("[BytesFromBuffer] Req:%d, Act:%d: %w", length, n, err)
+	}
+
 	tmp := make([]byte, length)
 
 	n, err := io.ReadFull(r, tmp)
